@@ -37,6 +37,9 @@ type c07Plan struct {
 	// JSON: the node runs with -pre1.0_protobuf=false (entries and stores are JSON encoded;
 	// the marked entry is still written in the protobuf form)
 	JSON bool
+	// Offset is robust.MessageOffset in the node (main() sets 4648398125000000000 by default;
+	// message and session ids are offset + raft index)
+	Offset uint64
 }
 
 // TestVerifC07Child applies the plan's entries through the real FSM with the
@@ -55,6 +58,7 @@ func TestVerifC07Child(t *testing.T) {
 		t.Fatal(err)
 	}
 	verifStoreProto = !plan.JSON
+	robust.MessageOffset = plan.Offset
 	f := newFixture(filepath.Join(dir, "node"))
 	w := bufio.NewWriter(os.Stdout)
 	for i := range plan.Entries {
@@ -150,6 +154,7 @@ func c07MakePlan(seed int64) (*c07Plan, bool) {
 		plan.SnapAfterRestart = true
 	}
 	plan.JSON = rng.Intn(4) == 0
+	plan.Offset = []uint64{0, 4648398125000000000, 4648398125000000000, 1000}[rng.Intn(4)]
 	return plan, true
 }
 
@@ -189,7 +194,9 @@ func c07Run(rep *verifrep.R, dir string, plan *c07Plan, sample bool) {
 		rep.Violation("C07", key, what, map[string]interface{}{"plan": pw, "crash_entry": plan.Entries[plan.CrashAt]})
 	}
 	verifStoreProto = !plan.JSON
-	defer func() { verifStoreProto = true }()
+	robust.MessageOffset = plan.Offset
+	defer func() { verifStoreProto = true; robust.MessageOffset = 0 }()
+	crashSession := robust.IdFromRaftIndex(plan.Entries[plan.CrashAt].Session)
 	pb, _ := json.Marshal(plan)
 	os.WriteFile(filepath.Join(dir, "plan.json"), pb, 0644)
 	cmd := exec.Command(os.Args[0], "-test.run", "^TestVerifC07Child$")
@@ -236,7 +243,7 @@ func c07Run(rep *verifrep.R, dir string, plan *c07Plan, sample bool) {
 			if m.Type != robust.MessageOfDeath {
 				viol("crashing-entry-not-marked", fmt.Sprintf("entry %d (%q) crashed the state machine but is stored with type %v", e.Id, e.Data, m.Type))
 			}
-			wm := robust.NewMessageFromBytes(want.Data, want.Index)
+			wm := robust.NewMessageFromBytes(want.Data, robust.IdFromRaftIndex(want.Index))
 			wm.Type = robust.MessageOfDeath
 			if canon(wm) != canon(m) {
 				viol("marked-entry-altered", fmt.Sprintf("the marked entry differs from the original in more than its type: %s vs %s", canon(m), canon(wm)))
@@ -348,8 +355,8 @@ func c07Run(rep *verifrep.R, dir string, plan *c07Plan, sample bool) {
 	for i := range plan.Extra {
 		idxs = append(idxs, plan.Extra[i].Id)
 	}
-	nodeState, nodeOut := c07Dump(ircServer, func(i uint64) ([]verifmon.Reply, bool) { return outReplies(outputStream, i) }, idxs, live)
-	aState, aOut := c07Dump(ta.srv, func(i uint64) ([]verifmon.Reply, bool) { return outReplies(ta.out, i) }, idxs, live)
+	nodeState, nodeOut := c07Dump(ircServer, func(i uint64) ([]verifmon.Reply, bool) { return outReplies(outputStream, robust.IdFromRaftIndex(i)) }, idxs, live)
+	aState, aOut := c07Dump(ta.srv, func(i uint64) ([]verifmon.Reply, bool) { return outReplies(ta.out, robust.IdFromRaftIndex(i)) }, idxs, live)
 	if nodeState != aState {
 		d := stateDiff(ta.srv.VerifView(), ircServer.VerifView())
 		if !(len(d) == 1 && d[0] == "Config.WhitelistedOrigins") {
@@ -368,7 +375,7 @@ func c07Run(rep *verifrep.R, dir string, plan *c07Plan, sample bool) {
 	// twin B: the log without the entry; only that session's marker and activity may differ
 	va, vb := ircServer.VerifView(), tb.srv.VerifView()
 	for i := range va.Sessions {
-		if va.Sessions[i].Id.Id == crash.Session && va.Sessions[i].Id.Reply == 0 {
+		if va.Sessions[i].Id.Id == crashSession && va.Sessions[i].Id.Reply == 0 {
 			for j := range vb.Sessions {
 				if vb.Sessions[j].Id == va.Sessions[i].Id {
 					vb.Sessions[j].LastClientMessageId = va.Sessions[i].LastClientMessageId
@@ -394,7 +401,7 @@ func c07Run(rep *verifrep.R, dir string, plan *c07Plan, sample bool) {
 	// the duplicate-detection marker advanced
 	stillThere := false
 	for _, s := range va.Sessions {
-		if s.Id.Id == crash.Session && s.Id.Reply == 0 {
+		if s.Id.Id == crashSession && s.Id.Reply == 0 {
 			stillThere = true
 		}
 	}
@@ -405,7 +412,7 @@ func c07Run(rep *verifrep.R, dir string, plan *c07Plan, sample bool) {
 		}
 	}
 	if stillThere && !laterFromSame {
-		if got := ircServer.LastPostMessage(robust.Id{Id: crash.Session}); got != crash.ClientMessageId {
+		if got := ircServer.LastPostMessage(robust.Id{Id: crashSession}); got != crash.ClientMessageId {
 			viol("marker-not-advanced", fmt.Sprintf("LastPostMessage(%d) = %d after the replay, the crashing entry carried %d", crash.Session, got, crash.ClientMessageId))
 			rep.Violation("C10", "marker-not-set-by-message-of-death", fmt.Sprintf("after a real crash, restart and replay the session's marker is %d, the crashing entry carried %d: the bridge's retry would be applied (and crash) again", got, crash.ClientMessageId), map[string]interface{}{"seed": plan.Seed})
 		}
